@@ -115,12 +115,12 @@ fn additional_enumerals<'a>(
             .into_iter()
             .map(|(name, index, _, comments)| {
                 let index = index.unwrap_or_else(|| {
-                    while used_in_root.contains(&next) {
+                    while used_in_root.contains(&next) && next < i128::MAX {
                         next += 1;
                     }
                     next
                 });
-                next = next.max(index + 1);
+                next = next.max(index.saturating_add(1));
                 Enumeral {
                     name: name.into(),
                     description: comments.map(|c| c.into()),
